@@ -98,14 +98,18 @@ def check(ctx):
                       and contains(x, lambda y: y[0] == 'vfield' and y[2] == 'Array'))
     def len_base(x):
         return strip_sites(x[1] if x[0] == 'len' else x[2][0])
+    arrays = find_terms(b, tb, lambda y: y[0] == 'vfield' and y[2] == 'Array' and y[3] == '0' and m_call(y[1], name='as_case') is not None)
     for bi, si, t in node_accepts:
-        # `.len()` calls and the built-in slice length are the same quantity when taken of the same collection
-        if not lens or len({len_base(x) for x in lens}) != 1:
+        # the element count of the decoded array is the atom; `.len()`, the slice length operator, `is_empty()` of the tail,
+        # `split_first()` / `first()` presence and slice patterns are all derived from it
+        if len(arrays) != 1 or (lens and {len_base(x) for x in lens} != {arrays[0]}):
             ctx.fail('C06.1', ctx.site(b, bi, si), 'no (single) element-count test found before the node accept exit', key='C06.1|nolen')
             continue
         verdicts = {}
         for n in (0, 1, 2, 3):
-            verdicts[n] = bi in reach_under(b, tb, {x: n for x in lens})
+            env = {x: n for x in lens}
+            env[('len', arrays[0])] = n
+            verdicts[n] = bi in reach_under(b, tb, env)
         if verdicts == {0: False, 1: False, 2: True, 3: True}:
             ctx.ok('C06.1', ctx.site(b, bi, si), 'node accept reachable iff element count >= 2 (valuation table %s)' % verdicts, sample=verdicts)
         else:
